@@ -172,7 +172,10 @@ namespace sim
           names.push_back("plate model constant age");
         }
       if (family == "subducting plate")
-        names.push_back("plate model");
+        {
+          names.push_back("plate model");
+          names.push_back("mass conserving");
+        }
       if (family == "plume")
         names = {"uniform", "gaussian"};
       const std::string m = names[r.below(names.size())];
@@ -223,9 +226,35 @@ namespace sim
         kv.push_back({"plate age", num(r.real(1e6, 1.5e8))});
       if (m == "plate model" && family == "subducting plate")
         kv.push_back({"plate velocity", num(r.real(0.01, 0.1))});
+      if (m == "mass conserving")
+        {
+          // a slab that subducts slower than its plate spreads gets "negative ages" deep down, which the library
+          // refuses with an exception at query time - wanted: tools have to cope with refused nodes
+          const double spreading = r.real(0.02, 0.1);
+          kv.push_back({"spreading velocity", num(spreading)});
+          kv.push_back({"subducting velocity", num(r.chance(0.5) ? spreading : spreading * r.real(0.1, 0.9))});
+          double minx = poly[0][0], maxx = poly[0][0], miny = poly[0][1], maxy = poly[0][1];
+          for (auto &p : poly)
+            {
+              minx = std::min(minx, p[0]);
+              maxx = std::max(maxx, p[0]);
+              miny = std::min(miny, p[1]);
+              maxy = std::max(maxy, p[1]);
+            }
+          const double off = (f.spherical ? 10.0 : 1500e3) * (r.chance(0.5) ? 1.0 : -1.0);
+          kv.push_back({"ridge coordinates", list({list({pt(minx + off, miny - 0.2 * f.ey), pt(minx + off, maxy + 0.2 * f.ey)})})});
+          kv.push_back({"coupling depth", num(r.real(50e3, 120e3))});
+          kv.push_back({"taper distance", num(r.real(50e3, 150e3))});
+          if (r.chance(0.5))
+            kv.push_back({"reference model name", str(r.chance(0.5) ? "plate model" : "half space model")});
+        }
       if ((m == "half space model" || m == "plate model") && family == "oceanic plate")
         {
-          kv.push_back({"spreading velocity", num(r.real(0.01, 0.1))});
+          // one value, or one value per ridge coordinate: [[time, [[v at point 1, v at point 2]]]]
+          if (r.chance(0.4))
+            kv.push_back({"spreading velocity", list({list({num(0), list({nums({r.real(0.01, 0.1), r.real(0.01, 0.1)})})})})});
+          else
+            kv.push_back({"spreading velocity", num(r.real(0.01, 0.1))});
           // one ridge of two points next to the polygon
           double minx = poly[0][0], maxx = poly[0][0], miny = poly[0][1], maxy = poly[0][1];
           for (auto &p : poly)
@@ -743,10 +772,26 @@ namespace sim
           feats.push_back(area_feature(r, f, area[r.below(3)], i));
         else if (s < 0.62)
           feats.push_back(plume_feature(r, f, i));
-        else if (s < 0.85)
-          feats.push_back(line_feature(r, f, false, i, nullptr, false));
         else
-          feats.push_back(line_feature(r, f, true, i, nullptr, false));
+          {
+            SlabMeta m;
+            feats.push_back(line_feature(r, f, s >= 0.85, i, &m, false));
+            g.slabs.push_back(m);
+            // a layer painted after the slab that changes the temperature where the slab is (models that ask the
+            // world for the temperature at the point see it, the slab's own running value does not)
+            if (r.chance(0.3))
+              {
+                KV lk;
+                lk.push_back({"model", str("mantle layer")});
+                lk.push_back({"name", str("layer over slab " + std::to_string(i))});
+                lk.push_back({"coordinates", list({pt(f.cx - 3 * f.ex, f.cy - (f.spherical ? std::min(3 * f.ey, 85.0 - std::fabs(f.cy)) : 3 * f.ey)), pt(f.cx + 3 * f.ex, f.cy - (f.spherical ? std::min(3 * f.ey, 85.0 - std::fabs(f.cy)) : 3 * f.ey)),
+                                                  pt(f.cx + 3 * f.ex, f.cy + (f.spherical ? std::min(3 * f.ey, 85.0 - std::fabs(f.cy)) : 3 * f.ey)), pt(f.cx - 3 * f.ex, f.cy + (f.spherical ? std::min(3 * f.ey, 85.0 - std::fabs(f.cy)) : 3 * f.ey))})});
+                lk.push_back({"min depth", num(0)});
+                lk.push_back({"max depth", num(r.real(200e3, 900e3))});
+                lk.push_back({"temperature models", list({obj({{"model", str("uniform")}, {"operation", str(r.chance(0.7) ? "add" : "subtract")}, {"temperature", num(r.real(50, 300))}})})});
+                feats.push_back(obj(lk));
+              }
+          }
       }
     kv.push_back({"features", list(feats)});
     g.json = obj(kv);
@@ -994,6 +1039,33 @@ namespace sim
     info.edge_lo = vertical ? oy : ox;
     info.edge_hi = info.edge_lo + L;
     info.edge_depth = std::min(d1, d2);
+    return g;
+  }
+
+  GenWorld gen_refusing_world(Rng &r)
+  {
+    // a Cartesian slab that subducts slower than its plate spreads: deep along the slab the mass conserving
+    // model computes a negative age and the library refuses the point with an exception
+    GenWorld g;
+    const double x0 = 100e3 * static_cast<double>(r.range(-3, 3));
+    const double spreading = r.real(0.045, 0.055);
+    KV tm = {{"model", str("mass conserving")}, {"density", num(3300)}, {"thermal conductivity", num(3.3)}, {"adiabatic heating", "true"},
+      {"spreading velocity", num(spreading)}, {"subducting velocity", num(spreading * r.real(0.15, 0.25))},
+      {"ridge coordinates", list({list({pt(x0 - 1600e3, -500e3), pt(x0 - 1600e3, 500e3)})})},
+      {"coupling depth", num(80e3)}, {"forearc cooling factor", num(r.real(15, 20))}, {"taper distance", num(100e3)},
+      {"min distance slab top", num(0)}, {"max distance slab top", num(100e3)}
+    };
+    KV fk = {{"model", str("subducting plate")}, {"name", str("slow slab")}, {"coordinates", list({pt(x0, -500e3), pt(x0, 500e3)})},
+      {"dip point", pt(x0 + 1000e3, 0)},
+      {"segments", list({obj({{"length", num(r.real(580e3, 650e3))}, {"thickness", nums({100e3})}, {"angle", nums({r.real(42, 48)})}})})},
+      {"temperature models", list({obj(tm)})}, {"composition models", list({obj({{"model", str("uniform")}, {"compositions", inums({0})}})})}
+    };
+    KV kv = {{"version", str("1.1")}, {"coordinate system", obj({{"model", str("cartesian")}})},
+      {"cross section", list({pt(x0 - 200e3, 0), pt(x0 + 700e3, 0)})},
+      {"surface temperature", num(273)}, {"potential mantle temperature", num(1623)}, {"thermal expansion coefficient", num(3.1e-5)},
+      {"specific heat", num(1000)}, {"thermal diffusivity", num(1.0e-6)}, {"features", list({obj(fk)})}
+    };
+    g.json = obj(kv);
     return g;
   }
 }
